@@ -11,6 +11,7 @@ import (
 	"fmt"
 	"os"
 	"runtime"
+	"runtime/pprof"
 	"sync"
 	"sync/atomic"
 	"time"
@@ -40,6 +41,7 @@ type worker struct {
 	agg     *agg
 	sc      *scratch
 	backing []byte
+	dirty   int // bytes of backing the previous sequence may have written
 	obs     observations
 	evals   int64
 	nontriv int64
@@ -48,7 +50,11 @@ type worker struct {
 }
 
 func newWorker() *worker {
-	return &worker{agg: newAgg(), sc: newScratch(), backing: make([]byte, 8192)}
+	w := &worker{agg: newAgg(), sc: newScratch(), backing: make([]byte, 8192)}
+	for i := range w.backing {
+		w.backing[i] = 0xEE
+	}
+	return w
 }
 
 func (rn *runner) opsOf(seq []int) []Op {
@@ -73,13 +79,20 @@ func (rn *runner) below(d int) int64 {
 func (rn *runner) node(w *worker, seq []int, verbose bool) (stop bool) {
 	w.evals++
 	rep := &reporter{a: w.agg, key: nodeKey{run: rn.idx, seq: seq}, verbose: verbose}
+	rep.ctx = func() string {
+		if rn.World == "pool" {
+			return fmt.Sprintf("pool.Message, sequence [%s]", seqString(rn.opsOf(seq)))
+		}
+		return fmt.Sprintf("message.Options (initial capacity %d, %d-byte value buffer), sequence [%s]", rn.Cfg.Cap, rn.Cfg.Buf, seqString(rn.opsOf(seq)))
+	}
 	rep.replay = func() any {
 		return seqReplay{World: rn.World, Cap: rn.Cfg.Cap, Buf: rn.Cfg.Buf, Ops: rn.opsOf(seq)}
 	}
 	last := len(seq) - 1
 	var lastOp Op
 	if rn.World == "options" {
-		wd := newOptWorld(rn.Cfg, w.backing, nil)
+		wd := newOptWorld(rn.Cfg, w.backing, w.dirty)
+		defer func() { w.dirty = rn.Cfg.Buf - len(wd.buf) + 512 }() // +512: a refused ResetOptionsTo may have written ahead
 		for i, k := range seq {
 			op := rn.ops[k]
 			var r *reporter
@@ -164,6 +177,15 @@ func main() {
 	}
 	r := ev.Start("C15", "exploration")
 	t0 := time.Now()
+	// The check allocates many short-lived objects on every core while its live heap is a few MB;
+	// a ballast (never touched, no pointers) keeps the collector from running every few ms.
+	ballast := make([]byte, 256<<20)
+	defer runtime.KeepAlive(ballast)
+	if f := ev.Arg("cpuprofile"); f != "" { // for tuning only
+		fh, _ := os.Create(f)
+		_ = pprof.StartCPUProfile(fh)
+		defer pprof.StopCPUProfile()
+	}
 	phase := func(name string) {
 		if ev.HasFlag("timing") {
 			fmt.Fprintf(os.Stderr, "phase %-12s done at %6.2fs\n", name, time.Since(t0).Seconds())
@@ -172,10 +194,12 @@ func main() {
 	nw := runtime.NumCPU()
 
 	// ---- declared grid
-	coreDepth := ev.Pick(r, 4, 5)
-	wideDepth := ev.Pick(r, 2, 3)
+	coreDepth, wideDepth, miniDepth := 4, ev.Pick(r, 2, 3), ev.Pick(r, 0, 5)
 	if v := ev.Arg("depth"); v != "" { // for experiments only
 		fmt.Sscanf(v, "%d", &coreDepth)
+		if miniDepth > 0 {
+			miniDepth = coreDepth + 1
+		}
 	}
 	caps := []int{0, 1, 16}
 	bufs := []int{4096, 600, 2} // never too small / too small after two long values / too small at once
@@ -184,29 +208,32 @@ func main() {
 		rn := &runner{idx: len(runners), World: world, Cfg: cfg, Alpha: alpha, depth: depth}
 		switch world {
 		case "options":
-			rn.ops = optionsAlphabet(alpha == "wide")
+			rn.ops = optionsAlphabet(alpha)
 		case "pool":
-			rn.ops = poolAlphabet(alpha == "wide")
+			rn.ops = poolAlphabet(alpha)
 		}
 		runners = append(runners, rn)
 	}
+	poolCfg := optCfg{Cap: 16, Buf: 256} // fixed by pool.NewMessage; recorded for the replay file only
 	for _, c := range caps {
 		for _, b := range bufs {
-			d := coreDepth
-			if r.Thorough() && !(b == 4096 || (c == 16 && b == 600)) {
-				// thorough: full depth for all capacities with the large buffer and for the
-				// mid buffer at capacity 16; the remaining small-buffer configurations stay at 4
-				d = 4
-			}
-			add("options", optCfg{Cap: c, Buf: b}, "core", d)
+			add("options", optCfg{Cap: c, Buf: b}, "core", coreDepth)
 		}
 	}
-	add("pool", optCfg{Cap: 16, Buf: 256}, "core", coreDepth)
+	add("pool", poolCfg, "core", coreDepth)
 	for _, c := range caps {
 		add("options", optCfg{Cap: c, Buf: 4096}, "wide", wideDepth)
 	}
 	add("options", optCfg{Cap: 16, Buf: 600}, "wide", wideDepth)
-	add("pool", optCfg{Cap: 16, Buf: 256}, "wide", wideDepth)
+	add("pool", poolCfg, "wide", wideDepth)
+	if miniDepth > 0 { // thorough only: one step deeper over the mini alphabet, all configurations
+		for _, c := range caps {
+			for _, b := range bufs {
+				add("options", optCfg{Cap: c, Buf: b}, "mini", miniDepth)
+			}
+		}
+		add("pool", poolCfg, "mini", miniDepth)
+	}
 
 	// ---- sequences of length 0 and 1 (main goroutine), then one work item per 2-prefix
 	mw := newWorker()
@@ -262,7 +289,10 @@ func main() {
 		defer gmu.Unlock()
 		b, ok := gagg.m[sig]
 		if !ok {
-			b = &best{key: nodeKey{run: 1 << 30, seq: []int{order}}}
+			// 64 entries: a grid finding ranks behind every operation sequence as the example
+			// reported for a signature (a sequence is the more useful counterexample)
+			b = &best{key: nodeKey{run: 1 << 30, seq: make([]int, 64)}}
+			b.key.seq[0] = order
 			gagg.m[sig] = b
 		}
 		b.count++
@@ -307,13 +337,22 @@ func main() {
 		obs.uriPathLongStored += w.obs.uriPathLongStored
 	}
 	total.merge(gagg)
+	// ev counts one occurrence per Violate call; a defect in a query fires on nearly every
+	// sequence, so the calls are capped and the exact numbers go into the evidence
+	const occurrenceCap = 1000000
+	perSig := map[string]int64{}
 	for sig, b := range total.m {
-		for i := int64(0); i < b.count; i++ {
+		perSig[sig] = b.count
+		for i := int64(0); i < b.count && i < occurrenceCap; i++ {
 			r.Violate(sig, b.what, b.replay)
 		}
 	}
+	if evals+pruned != grid {
+		ev.EngineError("bookkeeping: executed %d + skipped %d != declared %d sequences", evals, pruned, grid)
+	}
 
 	phase("merge")
+	pprof.StopCPUProfile()
 	// ---- evidence
 	var desc []map[string]any
 	for _, rn := range runners {
@@ -321,7 +360,7 @@ func main() {
 	}
 	// a few actual sequences, chosen by a fixed rule (k-th operation = (7k+3)*(i+1) mod N)
 	for i := 0; i < 6; i++ {
-		rn := runners[(i*5)%len(runners)]
+		rn := runners[[6]int{0, 5, 9, 9, 12, 14}[i]] // 9 and 14 are the pool.Message runners
 		seq := make([]int, rn.depth)
 		for k := range seq {
 			seq[k] = ((7*k + 3) * (i + 1)) % len(rn.ops)
@@ -343,11 +382,13 @@ func main() {
 	r.Set("path_grid_evaluations", pathEvals.Load())
 	r.Set("uint_grid_evaluations", uintEvals)
 	r.Set("runners", desc)
+	r.Set("sequences_per_signature", perSig)
+	r.Set("occurrences_printed_capped_at", int64(occurrenceCap))
 	r.Set("observed_SetPath_empty_is_noop", obs.setPathEmptyNoop)
 	r.Set("observed_SetPath_empty_clears", obs.setPathEmptyClear)
 	r.Set("observed_UriPath_over_255_refused_by_setter", obs.uriPathLongRefused)
 	r.Set("observed_UriPath_over_255_stored_by_setter", obs.uriPathLongStored)
-	r.Set("rule", fmt.Sprintf("ALL operation sequences of length 0..L over the listed alphabets (see runners: core alphabet L=%d, wide alphabet = full product operation x id x value length L=%d), each executed from a fresh world: message.Options with initial capacity {0,1,16} x value buffer {4096,600,2} bytes, and pool.Message (256-byte value buffer, capacity 16, second message as Clone target, Swap, Reset+reuse). After the last step of every sequence: list == reference list (ids ascending, stable order, values byte-exact vs deep copies), the other copy (clone/original) unchanged, then Find/HasOption/GetUint32/GetString/GetBytes and GetUint32s/GetStrings/GetBytess with result slices of length count-1,count,count+1 for ids %v, Path, LocationPath, Queries, ContentFormat, Accept, Observe (pool: also through the Message getters), then the list again. evaluations = sequences executed + path-grid + uint-grid calls. distinct_nontrivial = executed (configuration, sequence) pairs -- all distinct by construction -- after which a reference list (edited, clone or second message) holds >= 1 option, or during which a growth path (option slice at capacity, pool value buffer beyond 256 bytes) or a too-small buffer was exercised. A sequence whose last step leaves the list different from the reference is reported and not extended (counted in sequences_not_executed_below_diverged_prefix; exhaustive is true only if that is 0). Path grid: every string of length <= 8 over {/,a,b} plus 254/255/256-byte segment templates x {SetPath,SetLocationPath} x {empty list, list with an old path between other options} x buffer {exact, larger, one byte short}, pool.Message.SetPath x {fresh, old path, value buffer nearly used up}, GetPathBufferSize. Uint grid: 19 boundary numbers x buffer sizes 0..5.", coreDepth, wideDepth, queryIDs))
+	r.Set("rule", fmt.Sprintf("ALL operation sequences of length 0..L over the listed alphabets (see runners: core alphabet L=%d; wide alphabet = full product operation x id x value length, L=%d; thorough tier additionally the mini alphabet with L=%d), each executed from a fresh world: message.Options with initial capacity {0,1,16} x value buffer {4096,600,2} bytes, and pool.Message (256-byte value buffer, capacity 16, second message as Clone target, Swap, Reset+reuse). After the last step of every sequence: list == reference list (ids ascending, stable order, values byte-exact vs deep copies), the other copy (clone/original) unchanged, then Find/HasOption/GetUint32/GetString/GetBytes and GetUint32s/GetStrings/GetBytess with result slices of length count-1,count,count+1 for ids %v, Path, LocationPath, Queries, ContentFormat, Accept, Observe (pool: also through the Message getters), then the list again. evaluations = sequences executed + path-grid + uint-grid calls. distinct_nontrivial = executed (configuration, sequence) pairs -- all distinct by construction -- after which a reference list (edited, clone or second message) holds >= 1 option, or during which a growth path (option slice at capacity, pool value buffer beyond 256 bytes) or a too-small buffer was exercised. A sequence whose last step leaves the list different from the reference is reported and not extended (counted in sequences_not_executed_below_diverged_prefix; exhaustive is true only if that is 0). Path grid: every string of length <= 8 over {/,a,b} plus 254/255/256-byte segment templates x {SetPath,SetLocationPath} x {empty list, list with an old path between other options} x buffer {exact, larger, one byte short}, pool.Message.SetPath x {fresh, old path, value buffer nearly used up}, GetPathBufferSize. Uint grid: 19 boundary numbers x buffer sizes 0..5.", coreDepth, wideDepth, miniDepth, queryIDs))
 	r.Assume(
 		"the reference list (model.go) is written from the property statement and the godoc of message/options.go, not from the implementation; readings of silent spots are R1-R8 in world_opts.go and P1-P5 in world_pool.go",
 		"query methods do not change hidden state that later operations depend on; checked as far as observable: the list is compared again after the query set of every sequence",
